@@ -421,6 +421,14 @@ pub fn drive_c13(t: &Tier, m: &mut Matrix, sink: &mut Sink) {
             sink.emit(m.run(&Case::new("write", x.clone()).a(a)));
         }
     }
+    // beyond the listed properties: write() to a writer that fails after k bytes propagates the error
+    for x in sample(&mut rng, &xs, t.q(40, 200)) {
+        let nb = (x.len() + 7) / 8;
+        for k in [0usize, 1, nb.saturating_sub(1), nb, nb + 1] {
+            let a = Args { e: Some(if k % 2 == 0 { 'L' } else { 'B' }), n: Some(k as u128), ..Default::default() };
+            sink.emit(m.run(&Case::new("write_fail", x.clone()).a(a)));
+        }
+    }
     // from_bytes: byte strings of 0..k bytes
     for nb in (0..t.q(20, 36)).chain([24, 32, 33]) {
         for _ in 0..t.q(2, 5) {
@@ -482,6 +490,13 @@ pub fn drive_c14(t: &Tier, m: &mut Matrix, sink: &mut Sink) {
     xs.extend(pool(t, &mut rng, t.q(130, 600), true, 1));
     xs.sort();
     xs.dedup();
+    // beyond the listed properties: Display of Bit and of the error type
+    for b in [0u8, 1] {
+        sink.emit(m.run(&Case::new("bit_display", vec![]).a(Args { bit: Some(b), ..Default::default() }).xk(vec![Kind::D])));
+    }
+    for i in [0usize, 7, 123456] {
+        sink.emit(m.run(&Case::new("err_display", vec![]).a(Args { i: Some(i), ..Default::default() }).xk(vec![Kind::D])));
+    }
     let per = t.q(3, 10);
     let xs = if t.quick { sample(&mut rng, &xs, 500) } else { xs };
     for x in xs {
@@ -745,6 +760,9 @@ pub fn drive_c12(t: &Tier, m: &mut Matrix, sink: &mut Sink) {
         }
         sink.emit(m.run(&Case::new("new_inner", x.clone())));
         sink.emit(m.run(&Case::new("clone", x.clone())));
+        // beyond the listed properties: a clone is independent of its source; Debug never panics
+        sink.emit(m.run(&Case::new("clone_push", x.clone()).a(Args { bit: Some((x.len() % 2) as u8), ..Default::default() })));
+        sink.emit(m.run(&Case::new("debug_fmt", x.clone())));
     }
 }
 
